@@ -1,11 +1,15 @@
 #!/bin/bash
-# usage: tools/seed_suite.sh <id> ...  -- full test suite on a scratch copy of /repo HEAD with seeded/<id>/patch.diff applied
+# usage: tools/seed_suite.sh <id|HEAD> ...  -- full unedited test suite on a scratch copy of /repo HEAD with
+# seeded/<id>/patch.diff applied (HEAD: no patch); one result line per id appended to /tmp/seed_suite.log
+N=${SUITE_N:-5}
 for id in "$@"; do
   d=/verif/seeded/$id
   scratch=$(mktemp -d /tmp/scratch_ts.XXXXXX)
   git -C /repo archive HEAD | tar -x -C $scratch
-  ( cd $scratch && patch -p1 --no-backup-if-mismatch < $d/patch.diff > /dev/null 2>&1 ) || { echo "$id PATCH-FAILED" >> /tmp/seed_suite.log; rm -rf $scratch; continue; }
-  res=$(cd $scratch && PYTHONPATH=$scratch timeout 7000 nice -n 10 /venv/bin/python -m pytest -q -p no:cacheprovider --timeout=1800 -n 6 2>&1 | tail -1)
+  if [ "$id" != HEAD ]; then
+    ( cd $scratch && patch -p1 --no-backup-if-mismatch < $d/patch.diff > /dev/null 2>&1 ) || { echo "$id PATCH-FAILED" >> /tmp/seed_suite.log; rm -rf $scratch; continue; }
+  fi
+  res=$(cd $scratch && PYTHONPATH=$scratch timeout 7000 nice -n 10 /venv/bin/python -m pytest -q -p no:cacheprovider --timeout=1800 -n $N 2>&1 | tail -1)
   echo "$id HEAD=$(git -C /repo log --format=%h -1) :: $res" >> /tmp/seed_suite.log
   rm -rf $scratch
 done
